@@ -106,3 +106,27 @@ pub fn wire_char<const N: usize>() {
         }
     }
 }
+
+/// deserialising the String term a char is serialised to (built here with a concrete byte length N,
+/// because `char::to_string()` inside `to_term` is a symbolic-size allocation under CBMC)
+pub fn deser_char_string<const N: usize>() {
+    let c = vk::char();
+    vk::assume(c.len_utf8() == N);
+    let mut buf = [0u8; 4];
+    let _ = c.encode_utf8(&mut buf);
+    let mut v = Vec::with_capacity(N);
+    let mut i = 0;
+    while i < N {
+        v.push(buf[i]);
+        i += 1;
+    }
+    let t = erltf::OwnedTerm::String(unsafe { String::from_utf8_unchecked(v) });
+    match from_term::<char>(&t) {
+        Ok(back) => vassert!(back == c, "L:term_roundtrip_value"),
+        Err(e) => {
+            vassert!(false, "L:term_roundtrip_ok");
+            vk::leak(e);
+        }
+    }
+    vk::leak(t);
+}
